@@ -320,6 +320,10 @@ DEFOPT_VALUES: T.Dict[str, T.List[str]] = {
     'prefix': ['/usr', '/opt/x'],
     'layout': ['mirror', 'flat'],
 }
+# literal default_options entries whose key ends with / contains another option's key, or whose value contains `key=`
+CONFUSABLE_DEFOPTS = ['b_ndebug=if-release', 'build.c_args=-DB', 'c_args=-Ddebug=1 -Dstrip=x', 'c_link_args=-s', 'c_std=c11',
+                      'cpp_std=c++14', 'sub:werror=true', 'build.cpp_std=c++11', 'sub:debug=false', 'b_lto=false']
+CONFUSABLE_TAILS = ['debug', 'c_args', 'std', 'werror', 'args', 'strip', 'link_args', 'cpp_std', 'lto']
 COMMENTS = ['# plain comment', "# it's (a) comment, with 'quotes'", '# ünïcödé 日本 comment', '#no space', '#  x = [1, 2',
             "# executable('ghost', 'ghost.c')"]
 
@@ -501,6 +505,10 @@ class ProjectGen:
             defopts = [k for k, _ in ents]
             if form < 0.7:
                 items = [self.lit(f'{k}={v}') for k, v in ents]
+                if r.random() < 0.4:
+                    for e in r.sample(CONFUSABLE_DEFOPTS, r.randint(1, 4)):
+                        items.insert(r.randint(0, len(items)), self.lit(e))
+                    self.features.append('defopt-confusable-keys')
                 if r.random() < 0.3:
                     items.append(r.choice(["'b_' + 'ndebug=' + (not (true and false)).to_string()",
                                            "'install_umask=0' + (0o20 + 6).to_string()",
@@ -778,13 +786,25 @@ def gen_command(rng: random.Random, m: M.Model, pool: T.Sequence[str]) -> T.Opti
                 keys.append(rng.choice(present))
             return {'type': 'kwargs', 'function': fn, 'id': ident, 'operation': 'delete',
                     'kwargs': {k: None for k in dict.fromkeys(keys)}}
-        lists = [k for k, t in table.items() if t in ('strlist', 'idlist') and k != 'default_options']
+        lists = [k for k, t in table.items() if t in ('strlist', 'idlist')]
         if not lists:
             return None
         pl = [k for k in present if k in lists]
         k = rng.choice(pl) if pl and rng.random() < 0.7 else rng.choice(lists)
         typ = table[k]
         cur = rec.kwd().get(k)
+        if k == 'default_options':
+            ents = [x for x in M.listify(cur) if isinstance(x, str)] if cur is not None else []
+            have_keys = {x.split('=')[0] for x in ents}
+            if op == 'add':
+                free = [x for x in sorted(DEFOPT_VALUES) if x not in have_keys]
+                if not free:
+                    return None
+                kk = rng.choice(free)
+                v0 = f'{kk}={rng.choice(DEFOPT_VALUES[kk])}'
+            else:
+                v0 = rng.choice(ents) if ents and rng.random() < 0.8 else 'debug=true'
+            return {'type': 'kwargs', 'function': fn, 'id': ident, 'operation': op, 'kwargs': {k: v0}}
         if op == 'add':
             v = _kw_value(rng, typ, m)
             if v is None:
@@ -812,6 +832,14 @@ def gen_command(rng: random.Random, m: M.Model, pool: T.Sequence[str]) -> T.Opti
         return {'type': 'kwargs', 'function': 'target', 'id': _target_id(rng, rec), 'operation': 'info'}
     if kind == 'defopt-set':
         keys = rng.sample(sorted(DEFOPT_VALUES), rng.choice([1, 1, 2]))
+        proj = m.project()
+        cur = proj.kwd().get('default_options') if proj else None
+        ents = [x for x in M.listify(cur) if isinstance(x, str)] if isinstance(cur, (list, str)) else []
+        # prefer a key that is the tail of another entry's key, or occurs in another entry's value
+        near = [k for k in sorted(DEFOPT_VALUES) if any((k + '=') in e and not e.startswith(k + '=') for e in ents)]
+        if near and rng.random() < 0.7:
+            keys[0] = rng.choice(near)
+            keys = list(dict.fromkeys(keys))
         return {'type': 'default_options', 'operation': 'set', 'options': {k: rng.choice(DEFOPT_VALUES[k]) for k in keys}}
     if kind == 'defopt-delete':
         proj = m.project()
@@ -820,6 +848,11 @@ def gen_command(rng: random.Random, m: M.Model, pool: T.Sequence[str]) -> T.Opti
         if isinstance(cur, (list, str)):
             have = [x.split('=')[0] for x in M.listify(cur) if isinstance(x, str) and '=' in x]
         keys = [rng.choice(have)] if have and rng.random() < 0.8 else [rng.choice(sorted(DEFOPT_VALUES))]
+        near = [k for k in CONFUSABLE_TAILS + sorted(DEFOPT_VALUES)
+                if any((k + '=') in x and not x.startswith(k + '=') for x in M.listify(cur) if isinstance(x, str))] \
+            if isinstance(cur, (list, str)) else []
+        if near and rng.random() < 0.5:
+            keys = [rng.choice(near)]
         return {'type': 'default_options', 'operation': 'delete', 'options': {k: None for k in keys}}
     rec = rng.choice(tg)
     ident = _target_id(rng, rec)
